@@ -526,11 +526,11 @@ the concatenated bytes (and on whether the peer closed), not on how the reads cu
 every decoder state, every pair of segmentations, including 1-byte reads and a cut anywhere
 inside a chunk-size line, a CRLF or the data. -/
 theorem C17_segmentation_independent (k : Kind) (hwf : WF k) (b0 b0' : Bytes) (segs segs' : List Bytes)
-    (closed : Bool) (h : b0 ++ flat segs = b0' ++ flat segs') :
-    (runBody k b0 segs closed).delivered = (runBody k b0' segs' closed).delivered ∧
-    (runBody k b0 segs closed).fin = (runBody k b0' segs' closed).fin := by
-  have h1 := runBody_closed_form k hwf b0 segs closed
-  have h2 := runBody_closed_form k hwf b0' segs' closed
+    (closed bodiless : Bool) (h : b0 ++ flat segs = b0' ++ flat segs') :
+    (runBody k b0 segs closed bodiless).delivered = (runBody k b0' segs' closed bodiless).delivered ∧
+    (runBody k b0 segs closed bodiless).fin = (runBody k b0' segs' closed bodiless).fin := by
+  have h1 := runBody_closed_form k hwf b0 segs closed bodiless
+  have h2 := runBody_closed_form k hwf b0' segs' closed bodiless
   simp only [] at h1 h2
   rw [h] at h1
   exact ⟨h1.1.trans h2.1.symm, h1.2.trans h2.2.symm⟩
@@ -668,6 +668,24 @@ theorem C17_until_close (b0 : Bytes) (segs : List Bytes) :
   simpa using h
 
 
+/-- **C17_bodiless_status_end** — a response whose status cannot have a body (1xx, 204, 304; RFC 7230
+§3.3.3 rule 1) may still announce a Content-Length (a 304 does so legitimately). The code runs the
+decoder chosen from the headers (behaviour pinned by the suite's `not_modified_spec_h1`), but with
+`Flags::BODILESS_STATUS` the end of the connection is a clean end, never `Incomplete`: the F8
+repair applies exactly to the statuses whose Content-Length / chunked coding frames a body
+(`C17_complete_or_error`, `bodiless = false`). -/
+theorem C17_bodiless_status_end (k : Kind) (hwf : WF k) (b0 : Bytes) (segs : List Bytes) :
+    (runBody k b0 segs true true).delivered = (runBytes k (b0 ++ flat segs) []).out ∧
+    ((runBody k b0 segs true true).fin = .complete ∨ (runBody k b0 segs true true).fin = .closeDelimited ∨
+     (runBody k b0 segs true true).fin = .ioError) := by
+  have h := runBody_closed_form k hwf b0 segs true true
+  simp only [] at h
+  refine ⟨h.1, ?_⟩
+  rw [h.2]
+  cases (runBytes k (b0 ++ flat segs) []).st <;> simp
+
+example : (runBody (.length 24) [] [] true true).fin = .closeDelimited := by decide
+
 /-! ## Part 3 — one exchange (`send_request` + the caller's use of the payload) -/
 
 /-- the response as read off the segments: head, framing decision, what is left for the body -/
@@ -742,11 +760,13 @@ theorem bodyKind_head (o : ReqOpts) (h : Head) (f : Framing) (k : Kind)
 
 
 /-- how the body stream ended, read off the byte automaton -/
-def bodyEndOf (k : Kind) (stream : Bytes) (closed : Bool) : BodyEnd :=
+def bodyEndOf (k : Kind) (stream : Bytes) (closed bodiless : Bool) : BodyEnd :=
   match (runBytes k stream []).st with
   | .done => .complete
   | .failed => .ioError
-  | .more => if closed then (if (runBytes k stream []).kind = .eof then .closeDelimited else .incomplete) else .pending
+  | .more =>
+    if closed then (if (runBytes k stream []).kind = .eof || bodiless then .closeDelimited else .incomplete)
+    else .pending
 
 theorem exchange_noBody (o : ReqOpts) (mode : Mode) (segs : List Bytes) (closed : Bool)
     (h : Head) (rest0 buf : Bytes) (rest : List Bytes) (f : Framing)
@@ -770,16 +790,17 @@ theorem exchange_body (o : ReqOpts) (mode : Mode) (segs : List Bytes) (closed : 
     (hh : headPhase [] segs = (.ok h rest0, buf, rest)) (hf : responseFraming h = some f)
     (hk : bodyKind o f = some k) :
     let out := (runBytes k (rest0 ++ flat rest) []).out
-    let fin := bodyEndOf k (rest0 ++ flat rest) closed
+    let fin := bodyEndOf k (rest0 ++ flat rest) closed (bodilessStatus h.status)
     (exchange o mode segs closed).released =
       (!earlyDrop mode out.length && decide (fin = .complete) && codecKeepAlive o h f) ∧
     (∀ st bs, (exchange o mode segs closed).outcome = .body st bs →
       st = h.status ∧ bs = out ∧ earlyDrop mode out.length = false ∧ (fin = .complete ∨ fin = .closeDelimited)) := by
   have hwf := headKind_wf k (bodyKind_head o h f k hf hk)
-  have hcf := runBody_closed_form k hwf rest0 rest closed
+  have hcf := runBody_closed_form k hwf rest0 rest closed (bodilessStatus h.status)
   simp only [] at hcf
   obtain ⟨hd, hfin⟩ := hcf
-  have hfin' : (runBody k rest0 rest closed).fin = bodyEndOf k (rest0 ++ flat rest) closed := hfin
+  have hfin' : (runBody k rest0 rest closed (bodilessStatus h.status)).fin =
+      bodyEndOf k (rest0 ++ flat rest) closed (bodilessStatus h.status) := hfin
   intro out fin
   unfold exchange
   simp only [hh, hf, hk, hd]
@@ -790,7 +811,7 @@ theorem exchange_body (o : ReqOpts) (mode : Mode) (segs : List Bytes) (closed : 
   | false =>
     simp only [Bool.false_eq_true, if_false, Bool.not_false, Bool.true_and]
     rw [hfin']
-    have hfe : bodyEndOf k (rest0 ++ flat rest) closed = fin := rfl
+    have hfe : bodyEndOf k (rest0 ++ flat rest) closed (bodilessStatus h.status) = fin := rfl
     rw [hfe]
     cases hfc : fin with
     | complete =>
@@ -808,8 +829,8 @@ theorem exchange_body (o : ReqOpts) (mode : Mode) (segs : List Bytes) (closed : 
     | pending => exact ⟨by simp, fun st bs e => by simp at e⟩
 
 
-theorem bodyEndOf_complete (k : Kind) (s : Bytes) (closed : Bool) :
-    bodyEndOf k s closed = .complete ↔ (runBytes k s []).st = .done := by
+theorem bodyEndOf_complete (k : Kind) (s : Bytes) (closed bodiless : Bool) :
+    bodyEndOf k s closed bodiless = .complete ↔ (runBytes k s []).st = .done := by
   unfold bodyEndOf
   cases (runBytes k s []).st with
   | done => simp
@@ -817,11 +838,11 @@ theorem bodyEndOf_complete (k : Kind) (s : Bytes) (closed : Bool) :
   | more =>
     cases closed
     · simp
-    · by_cases he : (runBytes k s []).kind = .eof <;> simp [he]
+    · by_cases he : (runBytes k s []).kind = .eof <;> cases bodiless <;> simp [he]
 
-theorem bodyEndOf_closeDelimited (k : Kind) (s : Bytes) (closed : Bool)
-    (h : bodyEndOf k s closed = .closeDelimited) :
-    k = .eof ∧ closed = true ∧ (runBytes k s []).st = .more := by
+theorem bodyEndOf_closeDelimited (k : Kind) (s : Bytes) (closed bodiless : Bool)
+    (h : bodyEndOf k s closed bodiless = .closeDelimited) :
+    (k = .eof ∨ bodiless = true) ∧ closed = true ∧ (runBytes k s []).st = .more := by
   unfold bodyEndOf at h
   cases hst : (runBytes k s []).st with
   | done => simp [hst] at h
@@ -831,13 +852,16 @@ theorem bodyEndOf_closeDelimited (k : Kind) (s : Bytes) (closed : Bool)
     cases closed with
     | false => simp at h
     | true =>
-      by_cases he : (runBytes k s []).kind = .eof
-      · have hf := runBytes_fam k s [] (by rw [hst]; decide)
-        rw [he] at hf
-        refine ⟨?_, rfl, rfl⟩
-        cases k <;> simp [fam] at hf
-        rfl
-      · simp [he] at h
+      cases bodiless with
+      | true => exact ⟨Or.inr rfl, rfl, rfl⟩
+      | false =>
+        by_cases he : (runBytes k s []).kind = .eof
+        · have hf := runBytes_fam k s [] (by rw [hst]; decide)
+          rw [he] at hf
+          refine ⟨Or.inl ?_, rfl, rfl⟩
+          cases k <;> simp [fam] at hf
+          rfl
+        · simp [he] at h
 
 /-- **C17_release_iff** — a connection goes back into the pool (`on_release(true)`) if and only if
 * the response head was complete and its framing valid,
@@ -894,7 +918,7 @@ theorem C17_release_iff (o : ReqOpts) (mode : Mode) (segs : List Bytes) (closed 
         · intro hall
           simp only [Bool.and_eq_true, Bool.not_eq_eq_eq_not, Bool.not_true, decide_eq_true_eq] at hall
           obtain ⟨⟨he, hc⟩, hka⟩ := hall
-          exact ⟨_, rfl, hka, Or.inr ⟨k, hk, (bodyEndOf_complete _ _ _).1 hc, he⟩⟩
+          exact ⟨_, rfl, hka, Or.inr ⟨k, hk, (bodyEndOf_complete _ _ _ _).1 hc, he⟩⟩
         · rintro ⟨rd, hrd, hka, hcase⟩
           simp only [Option.some.injEq] at hrd
           subst hrd
@@ -903,22 +927,25 @@ theorem C17_release_iff (o : ReqOpts) (mode : Mode) (segs : List Bytes) (closed 
           · simp only [hk, Option.some.injEq] at hk'
             subst hk'
             simp only [Bool.and_eq_true, Bool.not_eq_eq_eq_not, Bool.not_true, decide_eq_true_eq]
-            exact ⟨⟨he, (bodyEndOf_complete _ _ _).2 hdone⟩, hka⟩
+            exact ⟨⟨he, (bodyEndOf_complete _ _ _ _).2 hdone⟩, hka⟩
 
 /-- **C17_ok_body_is_framed_body** (`C17_complete_or_error` at the level of the whole exchange) —
 whenever the caller ends up with `Ok(body)`:
 * the response had no payload and `body` is empty, or
 * the payload decoder reached its framed end inside the bytes received and `body` is exactly
   what it decoded up to there, or
-* the body is delimited by the end of the connection (HTTP/1.0 without length, 101), the peer
-  did close, and `body` is everything received.
-For Content-Length and chunked responses a short stream can therefore only surface as an error. -/
+* the body is delimited by the end of the connection (HTTP/1.0 without length, 101) — or the
+  status is one that cannot have a body at all (1xx, 204, 304: their Content-Length promises
+  nothing) — the peer did close, and `body` is everything decoded until then.
+For Content-Length and chunked responses with any other status a short stream can therefore only
+surface as an error. -/
 theorem C17_ok_body_is_framed_body (o : ReqOpts) (mode : Mode) (segs : List Bytes) (closed : Bool)
     (st : Nat) (bs : Bytes) (hok : (exchange o mode segs closed).outcome = .body st bs) :
     ∃ rd, readHead segs = some rd ∧ st = rd.h.status ∧
       ((bodyKind o rd.f = none ∧ bs = []) ∨
        ∃ k, bodyKind o rd.f = some k ∧ bs = (runBytes k (rd.rest0 ++ flat rd.rest) []).out ∧
-         ((runBytes k (rd.rest0 ++ flat rd.rest) []).st = .done ∨ (k = .eof ∧ closed = true))) := by
+         ((runBytes k (rd.rest0 ++ flat rd.rest) []).st = .done ∨
+          ((k = .eof ∨ bodilessStatus rd.h.status = true) ∧ closed = true))) := by
   generalize hp : headPhase [] segs = r at hok
   obtain ⟨hr, buf, rest⟩ := r
   cases hr with
@@ -942,8 +969,8 @@ theorem C17_ok_body_is_framed_body (o : ReqOpts) (mode : Mode) (segs : List Byte
         obtain ⟨hst, hbs, _, hfin⟩ := h1
         refine ⟨_, h2, hst, Or.inr ⟨k, hk, hbs, ?_⟩⟩
         rcases hfin with hc | hc
-        · exact Or.inl ((bodyEndOf_complete _ _ _).1 hc)
-        · have := bodyEndOf_closeDelimited _ _ _ hc
+        · exact Or.inl ((bodyEndOf_complete _ _ _ _).1 hc)
+        · have := bodyEndOf_closeDelimited _ _ _ _ hc
           exact Or.inr ⟨this.1, this.2.1⟩
 
 /-- **C17_no_leftover** — whichever way a request gets its connection, the socket's receive queue
